@@ -81,6 +81,8 @@ impl<'a> ReMatcher<'a> {
     }
 
     pub(crate) fn matches(&mut self, i: usize) -> bool {
+        #[cfg(regexml_verif)]
+        crate::verif::tick();
         // clear the captured group state
         self.state.borrow_mut().capture_state = CaptureState::new();
 
@@ -88,10 +90,14 @@ impl<'a> ReMatcher<'a> {
         if self.program.optimization_flags & OPT_HASBOL == OPT_HASBOL {
             // non multi-line matching with BOL: must match at '0' index
             if !self.program.flags.is_multi_line() {
+                #[cfg(regexml_verif)]
+                crate::verif::probe(crate::verif::PROBE_BOL_SINGLE_LINE);
                 return i == 0 && self.check_preconditions(i) && self.match_at(i, false);
             }
 
             // multi-line matching with BOL: seek to next line
+            #[cfg(regexml_verif)]
+            crate::verif::probe(crate::verif::PROBE_BOL_MULTI_LINE);
             if self.match_at(i, false) {
                 return true;
             }
@@ -99,6 +105,8 @@ impl<'a> ReMatcher<'a> {
             // make sure it works correctly. But can be cleaned up.
             let mut nl: isize = i.try_into().unwrap();
             loop {
+                #[cfg(regexml_verif)]
+                crate::verif::tick();
                 nl = self
                     .search
                     .iter()
@@ -121,14 +129,20 @@ impl<'a> ReMatcher<'a> {
         // is the string long enough to match?
         let actual_length = self.search.len() - i;
         if actual_length < self.program.minimum_length {
+            #[cfg(regexml_verif)]
+            crate::verif::probe(crate::verif::PROBE_MIN_LENGTH_CUT);
             return false;
         }
 
         // can we optimize the search by looking for a prefix string?
         if let Some(prefix) = &self.program.prefix {
+            #[cfg(regexml_verif)]
+            crate::verif::probe(crate::verif::PROBE_PREFIX_SCAN);
             // prefixed-anchored matching is possible
             let ignore_case = self.program.flags.is_case_independent();
             for j in i..self.search.len() + 1 - prefix.len() {
+                #[cfg(regexml_verif)]
+                crate::verif::tick();
                 let mut prefix_ok = true;
                 if ignore_case {
                     for (k, prefix) in prefix.iter().enumerate() {
@@ -158,7 +172,11 @@ impl<'a> ReMatcher<'a> {
         } else {
             // no prefix known; but the first character must match a predicate
             if let Some(inv_list) = &self.program.initial_char_class {
+                #[cfg(regexml_verif)]
+                crate::verif::probe(crate::verif::PROBE_INITIAL_CLASS);
                 for j in i..self.search.len() {
+                    #[cfg(regexml_verif)]
+                    crate::verif::tick();
                     if inv_list.contains(self.search[j]) && self.match_at(j, false) {
                         return true;
                     }
@@ -167,11 +185,19 @@ impl<'a> ReMatcher<'a> {
             }
             // check the preconditions
             if !self.check_preconditions(i) {
+                #[cfg(regexml_verif)]
+                crate::verif::probe(crate::verif::PROBE_PRECONDITION_REJECT);
                 return false;
             }
 
             // unprefixed matching must try for a match at each character
+            #[cfg(regexml_verif)]
+            if !self.program.preconditions.is_empty() {
+                crate::verif::probe(crate::verif::PROBE_PRECONDITION_PASS);
+            }
             for j in i..(self.search.len() + 1) {
+                #[cfg(regexml_verif)]
+                crate::verif::tick();
                 // try a match at index i
                 if self.match_at(j, false) {
                     return true;
@@ -187,6 +213,8 @@ impl<'a> ReMatcher<'a> {
 
     fn check_preconditions(&self, start: usize) -> bool {
         for precondition in &self.program.preconditions {
+            #[cfg(regexml_verif)]
+            crate::verif::tick();
             if let Some(fixed_position) = precondition.fixed_position {
                 let match_ = precondition
                     .operation
@@ -202,6 +230,8 @@ impl<'a> ReMatcher<'a> {
                 }
                 let mut found = false;
                 for j in i..self.search.len() {
+                    #[cfg(regexml_verif)]
+                    crate::verif::tick();
                     if (precondition.fixed_position.is_none()
                         || precondition.fixed_position == Some(j))
                         && precondition
@@ -235,6 +265,8 @@ impl<'a> ReMatcher<'a> {
 
         // try a match at each position
         while pos < len && self.matches(pos) {
+            #[cfg(regexml_verif)]
+            crate::verif::tick();
             // append chars from input string before match
             // TODO: what happens if this returns None as there is no paren start?
             if let Some(start) = self.get_paren_start(0) {
@@ -301,6 +333,8 @@ impl<'a> ReMatcher<'a> {
                                 }
                             } else {
                                 loop {
+                                    #[cfg(regexml_verif)]
+                                    crate::verif::tick();
                                     i += 1;
                                     if i >= replacement.len() {
                                         break;
